@@ -253,7 +253,22 @@ func c14For(c *Ctx, pp string) {
 					}
 				}
 			}
-			pos := t.Pos(l.Header.Instrs[0].Pos())
+			pos := "-"
+			for _, in := range l.Header.Instrs {
+				if in.Pos().IsValid() {
+					pos = t.Pos(in.Pos())
+					break
+				}
+			}
+			if pos == "-" {
+				for _, la := range l.Latch {
+					for _, in := range la.Instrs {
+						if in.Pos().IsValid() && pos == "-" {
+							pos = t.Pos(in.Pos())
+						}
+					}
+				}
+			}
 			if poll == nil {
 				r.Ob("POLL-IN-CYCLE", key, pos, false, "this loop has a cycle on which StmtRetrun() is not polled with an exit on true: an iteration can repeat forever after the signal fired")
 				continue
